@@ -25,6 +25,9 @@
 //                after each operation.
 //  --mode count  prints {"total": <#sequences of length 1..--len>} and exits.
 //  Both modes: after the last step every wrapper is destroyed and one more probe is made.
+//  A SIGABRT in the harness process itself (a library assertion firing inside a valid wrapper
+//  operation, e.g. an unbalanced unregistration) is reported as "qptr/abort-in-operation";
+//  the report is then written from the signal handler and the worker stops.
 #include "global.hpp"
 
 #include <sys/resource.h>
@@ -32,6 +35,7 @@
 #include <unistd.h>
 
 #include <algorithm>
+#include <cerrno>
 #include <csignal>
 #include <cstddef>
 #include <iterator>
@@ -87,8 +91,9 @@ enum kind : u8 { CTOR, DEF, COPYC, MOVEC, COPYA, MOVEA, PREINC, POSTINC, PREDEC,
 struct op { u8 k; i8 dst, src, a, b; };
 
 std::string str(const op& o) {
-  char t[48];
+  char t[48], n[8];
   const int d = o.dst, s = o.src, a = o.a, b = o.b;
+  std::snprintf(n, sizeof n, a < 0 ? "(%d)" : "%d", a);  // signed delta
   switch (o.k) {
     case CTOR: if (s < 0) std::snprintf(t, sizeof t, "p%d=ctor(null)", d); else std::snprintf(t, sizeof t, "p%d=ctor(b%d+%d)", d, s, a); break;
     case DEF: std::snprintf(t, sizeof t, "p%d=def", d); break;
@@ -100,11 +105,11 @@ std::string str(const op& o) {
     case POSTINC: std::snprintf(t, sizeof t, "p%d++", d); break;
     case PREDEC: std::snprintf(t, sizeof t, "--p%d", d); break;
     case POSTDEC: std::snprintf(t, sizeof t, "p%d--", d); break;
-    case ADDEQ: std::snprintf(t, sizeof t, "p%d+=%d", d, a); break;
-    case SUBEQ: std::snprintf(t, sizeof t, "p%d-=%d", d, a); break;
-    case PLUS: std::snprintf(t, sizeof t, "p%d+%d", d, a); break;
-    case NPLUS: std::snprintf(t, sizeof t, "%d+p%d", a, d); break;
-    case MINUS: std::snprintf(t, sizeof t, "p%d-%d", d, a); break;
+    case ADDEQ: std::snprintf(t, sizeof t, "p%d+=%s", d, n); break;
+    case SUBEQ: std::snprintf(t, sizeof t, "p%d-=%s", d, n); break;
+    case PLUS: std::snprintf(t, sizeof t, "p%d+%s", d, n); break;
+    case NPLUS: std::snprintf(t, sizeof t, "%s+p%d", n, d); break;
+    case MINUS: std::snprintf(t, sizeof t, "p%d-%s", d, n); break;
     case DESTROY: std::snprintf(t, sizeof t, "~p%d", d); break;
     case S_BUILD: if (s < 0) std::snprintf(t, sizeof t, "s%d=span(null,0)", d); else std::snprintf(t, sizeof t, "s%d=span(b%d+%d,%d)", d, s, a, b); break;
     case S_DEF: std::snprintf(t, sizeof t, "s%d=def", d); break;
@@ -221,12 +226,12 @@ void finish_report() {
 // ------------------------------------------------------------ fork probe
 enum probe_kind { PK_QUIESCENT, PK_PAUSE, PK_RESUME };
 const char* const kProbeName[] = {"quiescent", "pause", "resume"};
-enum outcome { ACCEPTED, REJECTED, ABNORMAL };
+enum outcome { ACCEPTED, REJECTED, ABNORMAL, NOFORK };  // NOFORK: the probe could not be made
 int g_devnull = -1;
 
 outcome fork_probe(probe_kind k) {
   const pid_t pid = ::fork();
-  if (pid < 0) return ABNORMAL;
+  if (pid < 0) return NOFORK;
   if (pid == 0) {
     ::signal(SIGABRT, SIG_DFL);
     if (g_devnull >= 0) ::dup2(g_devnull, 2);  // silence the assertion message + stack trace
@@ -241,7 +246,7 @@ outcome fork_probe(probe_kind k) {
     ::_exit(0);
   }
   int status = 0;
-  while (::waitpid(pid, &status, 0) < 0) if (errno != EINTR) return ABNORMAL;
+  while (::waitpid(pid, &status, 0) < 0) if (errno != EINTR) return NOFORK;
   if (WIFSIGNALED(status)) return WTERMSIG(status) == SIGABRT ? REJECTED : ABNORMAL;
   return WIFEXITED(status) && WEXITSTATUS(status) == 0 ? ACCEPTED : ABNORMAL;
 }
@@ -275,6 +280,9 @@ struct runner {
     wj.set("assertions_enabled", kAsserts).set("expected_live", st.live_nonnull());
     rep().violation("C17", key, what, std::move(wj));
   }
+
+  // an inconsistency of the harness itself is never reported as a violation of the library
+  void harness_bug(const char* what) { failed = true; rep().inconclusive(std::string("harness bug: ") + what); }
 
   // value of a temporary produced by an operator vs. the raw pointer result
   void temp(const qptr& t, const std::byte* expect, const char* which) {
@@ -319,7 +327,7 @@ struct runner {
   // Every observer of every live wrapper / pair of live wrappers vs. the shadow.
   void check_ptrs() {
     for (int i = 0; i < N; ++i) {
-      if (st.p[i].live != w[i].has_value()) { fail("qptr/harness", "slot liveness out of sync"); return; }
+      if (st.p[i].live != w[i].has_value()) { harness_bug("slot liveness out of sync"); return; }
       if (!st.p[i].live) continue;
       const qptr& a = *w[i];
       const std::byte* const pa = st.p[i].ptr();
@@ -350,7 +358,7 @@ struct runner {
 
   void check_spans() {
     for (int j = 0; j < M; ++j) {
-      if (st.s[j].live != s[j].has_value()) { fail("qptr/harness", "span slot liveness out of sync"); return; }
+      if (st.s[j].live != s[j].has_value()) { harness_bug("span slot liveness out of sync"); return; }
       if (!st.s[j].live || st.s[j].moved) continue;
       const qspan& q = *s[j];
       const rspan ref = st.s[j].span();
@@ -375,6 +383,7 @@ struct runner {
   void probe(probe_kind k) {
     const bool live = st.live_nonnull();
     const outcome r = fork_probe(k);
+    if (r == NOFORK) { rep().inconclusive("fork/waitpid failed, probe skipped"); return; }
     ++probes;
     ++g_cnt[C_PROBES];
     ++g_cnt[k == PK_QUIESCENT ? C_PQ : (k == PK_PAUSE ? C_PP : C_PR)];
@@ -411,7 +420,7 @@ void runner::run() {
   g_run = this;
   for (step_i = 0; step_i < ops.size() && !failed; ++step_i) {
     const shadow pre = st;
-    if (!step(st, ops[step_i])) { fail("qptr/harness", "inapplicable operation reached the executor"); break; }
+    if (!step(st, ops[step_i])) { harness_bug("inapplicable operation reached the executor"); break; }
     exec(ops[step_i], pre);
     ++g_cnt[C_OPS];
     if (!failed) check_ptrs();
@@ -477,14 +486,20 @@ u64 total_sequences(u64 asize, u64 maxlen) {
   return t;
 }
 
-// case index -> sequence: all of length 1 first, then length 2, ... Within a length the
-// index is a base-|A| number whose LEAST significant digit is the FIRST operation, so that
-// the applicable sequences (those starting with a constructor) are spread evenly over the
-// index range and contiguous worker ranges are load-balanced.
-bool decode(u64 c, u64 maxlen, const std::vector<op>& a, std::vector<op>& out) {
+// case index -> sequence. The index is first scattered over [0, total) by a multiplicative
+// bijection (prime multiplier not dividing total), then read as: all sequences of length 1,
+// then length 2, ...; within a length a base-|A| number (least significant digit = first
+// operation). Applicable sequences are rare (0.2-2 %: they must start with a constructor, ...)
+// and clustered in the plain numbering; scattering makes contiguous worker ranges balanced.
+u64 scatter_multiplier(u64 total) {
+  for (const u64 k : {1000003ULL, 1000033ULL, 1000037ULL}) if (total % k != 0) return k;  // primes
+  return 1;
+}
+bool decode(u64 c, u64 maxlen, u64 total, const std::vector<op>& a, std::vector<op>& out) {
+  if (c >= total) return false;
+  c = static_cast<u64>(static_cast<unsigned __int128>(c) * scatter_multiplier(total) % total);
   u64 p = a.size(), l = 1;
-  while (l <= maxlen && c >= p) { c -= p; p *= a.size(); ++l; }
-  if (l > maxlen) return false;
+  while (l < maxlen && c >= p) { c -= p; p *= a.size(); ++l; }
   out.resize(l);
   for (u64 i = 0; i < l; ++i) { out[i] = a[c % a.size()]; c /= a.size(); }
   return true;
@@ -495,8 +510,15 @@ std::vector<op> generate(vh::rng& r) {
   const u64 n = r.range(4, 60);
   std::vector<op> out;
   shadow st;
+  // relative frequency of each kind (non-null constructions favoured over null ones)
+  static constexpr u8 weight[KINDS] = {4, 1, 2, 2, 2, 2, 1, 1, 1, 1, 1, 1, 1, 1, 1, 2, 3, 1, 1, 1, 1, 1, 1};
+  static const std::vector<u8> lut = [] {
+    std::vector<u8> v;
+    for (u8 k = 0; k < KINDS; ++k) v.insert(v.end(), weight[k], k);
+    return v;
+  }();
   for (u64 attempt = 0; out.size() < n && attempt < n * 40; ++attempt) {
-    op o{static_cast<u8>(r.below(KINDS)), static_cast<i8>(r.below(N)), static_cast<i8>(r.below(N)), 0, 0};
+    op o{r.pick(lut), static_cast<i8>(r.below(N)), static_cast<i8>(r.below(N)), 0, 0};
     if (o.k == CTOR || o.k == S_BUILD) {
       o.src = r.chance(0.125) ? static_cast<i8>(-1) : static_cast<i8>(r.below(2));
       o.a = static_cast<i8>(r.below(L + 1));
@@ -534,7 +556,7 @@ int main(int argc, char** argv) {
   std::vector<op> seq;
   for (u64 c = cr.begin; c < cr.end; ++c) {
     if (is_enum) {
-      if (!decode(c, maxlen, alpha, seq)) break;  // past the last sequence
+      if (!decode(c, maxlen, total, alpha, seq)) break;  // past the last sequence
       shadow st;  // cheap shadow-only applicability pre-pass: nothing of the library is touched
       if (!std::ranges::all_of(seq, [&st](const op& o) { return step(st, o); })) { ++g_cnt[C_INAPP]; continue; }
     } else {
